@@ -180,8 +180,8 @@ def default_of(fn, par):
 EXPECTED = {
     'slerp': ['not 0 <= s <= 1', 's == 0', 's == 1', 'shortest', 'v0 < 0', 'abs(v1) > K * _eps'],
     'unit': ['abs(v0) < tol * _eps'],
-    'r2q': ['not base.isrot(R, check=check, tol=tol)', 'R[0, 0] >= R[1, 1] and R[0, 0] >= R[2, 2]', 'R[1, 1] >= R[2, 2]',
-            'v7', 'abs(v9) < tol * _eps'],
+    'r2q': ['not base.isrot(R, check=check, tol=tol)', 'np.trace(R) > 0', 'R[0, 0] >= R[1, 1] and R[0, 0] >= R[2, 2]', 'R[1, 1] >= R[2, 2]',
+            'v9', 'abs(v11) < tol * _eps'],
     'trinterp': ['base.ismatrix(end, (3, 3))', 'start is None', 'base.ismatrix(end, (4, 4))', 'start is None'],
     'interp': ['dest is not None', 'assert isinstance(dest, UnitQuaternion)', 's == 0', 's == 1', 's == 0', 's == 1',
                'assert 0 <= s <= 1', 'shortest', 'v2 < 0', 'v3 == 0'],
@@ -192,8 +192,9 @@ EXPECTED_SIG = {
     'slerp': (['0 <= s <= 1', '_v < 0', 'abs(_v) > K * _eps', 'not 0 <= s <= 1', 's == 0', 's == 1', 'shortest'], ['0', '1', '4'],
               ['ValueError', 'abs', 'base.getvector', 'math.acos', 'math.sin', 'np.clip', 'np.dot']),
     'unit': (['abs(_v) < tol * _eps'], ['4'], ['ValueError', 'abs', 'base.getvector', 'np.linalg.norm']),
-    'r2q': (['R[0, 0] >= R[1, 1]', 'R[0, 0] >= R[2, 2]', 'R[1, 1] >= R[2, 2]', '_v >= 0', 'abs(_v) < tol * _eps', 'not base.isrot(R, check=check, tol=tol)'],
-            ['0', '1', '1.0', '2', '2.0'], ['ValueError', 'abs', 'base.isrot', 'eye', 'math.sqrt', 'max', 'np.linalg.norm', 'np.trace']),
+    'r2q': (['R[0, 0] >= R[1, 1]', 'R[0, 0] >= R[2, 2]', 'R[1, 1] >= R[2, 2]', '_v >= 0', 'abs(_v) < tol * _eps', 'not base.isrot(R, check=check, tol=tol)',
+             'np.trace(R) > 0'],
+            ['0', '1', '1.0', '2', '2.0', '4.0'], ['ValueError', 'abs', 'base.isrot', 'eye', 'math.sqrt', 'max', 'np.dot', 'np.linalg.norm', 'np.trace']),
     'isunitvec': (['abs(np.linalg.norm(v) - 1) < tol * _eps'], ['1'], ['abs', 'np.linalg.norm']),
     # trinterp: its own range test on s (and the constants in it) is executed concolically (pc_trinterp_*), not fixed here: slerp checks the range too
     'trinterp': (['base.ismatrix(end, (3, 3))', 'base.ismatrix(end, (4, 4))', 'start is None'], None,
@@ -202,6 +203,16 @@ EXPECTED_SIG = {
                ['0', '1'], ['UnitQuaternion', 'base.eye', 'base.inner', 'float', 'isinstance', 'math.acos', 'math.cos', 'math.sin', 'np.clip']),
 }
 EXPECTED['isunitvec'] = []
+# accepted as well: UnitQuaternion.interp with /verif/proposed_fixes/C11/uq-interp-vector-s.diff applied -- a dispatch on `not base.isscalar(s)` in front of the
+# unchanged scalar path (which is what the model covers; the vector form is then verified by the oracle element by element)
+EXPECTED_SIG_ALT = {
+    'interp': (['0 <= s <= 1', '_v < 0', '_v == 0', 'assert 0 <= s <= 1', 'assert isinstance(dest, UnitQuaternion)', 'dest is not None', 'not base.isscalar(s)',
+                's == 0', 's == 1', 'shortest'], ['0', '1'],
+               ['UnitQuaternion', 'base.eye', 'base.getvector', 'base.inner', 'base.isscalar', 'float', 'isinstance', 'math.acos', 'math.cos', 'math.sin', 'np.clip',
+                'self.interp']),
+}
+EXPECTED_ALT = {'interp': ['not base.isscalar(s)', 'dest is not None', 'assert isinstance(dest, UnitQuaternion)', 's == 0', 's == 1', 's == 0', 's == 1',
+                           'assert 0 <= s <= 1', 'shortest', 'v3 < 0', 'v4 == 0']}
 
 
 def consts_from_ast(ctx):
@@ -230,7 +241,8 @@ def consts_from_ast(ctx):
             consts = [c for c in consts if c != k]
         want = EXPECTED_SIG[name]
         got = (atoms, consts if want[1] is not None else None, callees)
-        if got != want:
+        alt = got == EXPECTED_SIG_ALT.get(name)
+        if got != want and not alt:
             diff = [f"{lab}: +{sorted(set(g) - set(w))} -{sorted(set(w) - set(g))}" for lab, g, w in
                     zip(('guards', 'constants', 'callees'), got, want) if g != w and g is not None]
             raise SkeletonError(f"{name}: structure signature changed ({'; '.join(diff)})")
@@ -241,7 +253,7 @@ def consts_from_ast(ctx):
             sk = [re.sub(r'abs\(v\d+\)', 'abs(v1)', t) if 'K * _eps' in t else t for t in sk]
         if name == 'trinterp':
             sk = [t for t in sk if {n.id for n in ast.walk(ast.parse(t)) if isinstance(n, ast.Name)} != {'s'}]
-        if sk != EXPECTED[name]:
+        if sk != EXPECTED[name] and not (alt and sk == EXPECTED_ALT.get(name)):
             notes.append(f"{name}: same structure signature, different statement layout ({sk}); numeric correspondence escalated")
     res['unit_k'] = int(default_of(_func(qt, 'unit'), 'tol'))
     res['r2q_k'] = int(default_of(_func(qt, 'r2q'), 'tol'))
@@ -614,20 +626,8 @@ def uq_out_norm_err(p, q, s, shortest, dd=0.0):
 
 
 def uq_case(rng, shortest, from_identity=False):
-    """as quat_case, but never inside the band where the constructor's validity test (|norm-1| < 10 eps) is decided by the last bit"""
-    while True:
-        p, q, s = quat_case(rng, shortest, from_identity)
-        if not shortest and rng.random() < 0.1:
-            # long arc 1e-3 .. 1e-2 from antipodal: the un-normalised sum misses the constructor's test by a wide margin (IndexError branch)
-            th = PI - log_uniform(rng, 1e-3, 1e-2)
-            if from_identity:
-                p, q = np.array([1.0, 0, 0, 0]), np.r_[math.cos(th), math.sin(th) * rand_unit(rng)]
-            else:
-                p, q = quat_pair(rng, th)
-            s = float(rng.uniform(0.05, 0.95))
-        e = [uq_out_norm_err(p, q, s, shortest, dd) for dd in (0.0, 1.2e-16, -1.2e-16, 2.3e-16, -2.3e-16, 4.5e-16, -4.5e-16, 9e-16, -9e-16)]
-        if all(x < 3 for x in e) or all(x > 2000 for x in e):    # the outcome does not hinge on the last bit of the dot product
-            return [p, q, s]
+    """since fix d0fc1b2 both constructor paths normalise the blend, so no outcome hinges on the last bit any more: same inputs as slerp"""
+    return quat_case(rng, shortest, from_identity)
 
 
 def rot_regime(rng):
@@ -921,7 +921,7 @@ def oracle(ctx):
             except Exception as ex:  # noqa
                 kind = type(ex).__name__
                 where = 'long-arc' if long_arc else 'short-arc'
-                ctx.fail(f"oracle:UnitQuaternion.interp:{where}:raises-{kind}",
+                ctx.fail(f"oracle:UnitQuaternion.interp:{where}:no-result:{kind}",
                          f"UnitQuaternion.interp raises {kind} ({ex}) for q0.q1 = {float(lq0 @ lq1):g}, s = {s}", rps)
         # vector s gives the sequence
         sv = np.array(ss)
@@ -943,8 +943,10 @@ def oracle(ctx):
             lq1 = base.r2q(R1)
             try:
                 Uv = UnitQuaternion(lq1).interp(sv)
-                if not (len(Uv) == len(sv)):
+                if not (isinstance(Uv, UnitQuaternion) and len(Uv) == len(sv)):
                     ctx.fail('oracle:vector-s:UnitQuaternion.interp:wrong-length', "UnitQuaternion.interp(vector s) does not give one value per s", rp)
+                elif not all(np.max(np.abs(Uv.data[k_] - UnitQuaternion(lq1).interp(float(x_)).vec)) <= 1e-9 for k_, x_ in enumerate(sv)):
+                    ctx.fail('oracle:vector-s:UnitQuaternion.interp:not-the-sequence', "UnitQuaternion.interp(vector s) is not the sequence of the scalar results", rp)
             except Exception as ex:  # noqa
                 ctx.fail(f"oracle:vector-s:UnitQuaternion.interp:raises-{type(ex).__name__}",
                          f"UnitQuaternion.interp(vector s) raises {type(ex).__name__}: {ex}", dict(rp, s=[float(x) for x in sv]))
@@ -1009,7 +1011,7 @@ def oracle(ctx):
                         ctx.fail('oracle:agree:UnitQuaternion.interp/slerp', f"UnitQuaternion.interp and slerp differ by {e:g}", rp)
                 except Exception as ex:  # noqa
                     kind = type(ex).__name__
-                    ctx.fail(f"oracle:UnitQuaternion.interp:{'long-arc' if long_arc else 'short-arc'}:raises-{kind}",
+                    ctx.fail(f"oracle:UnitQuaternion.interp:{'long-arc' if long_arc else 'short-arc'}:no-result:{kind}",
                              f"UnitQuaternion.interp raises {kind} ({ex}) for q0.q1 = {float(q0 @ q1):g}, s = {s}, shortest = {sh}", rp)
 
     # ------------------------------------------------------------------ 2-D
